@@ -2,7 +2,7 @@
 # C15 — model of DIP branching (`@case` / `@else` / `@end`)
 
 Mirrors, statement by statement, the code of `/repo/src/scinumtools/dip`
-(after the `fix:` commits bc26006, d6c5e92, 62d4beb, f476bb7, 790a797, c1e6ecd):
+(after the `fix:` commits bc26006, d6c5e92, 62d4beb, f476bb7, 790a797, c1e6ecd, 445f434):
 
 * `lists/list_hierarchy.py`  `HierarchyList.register`        → `popGE`, `register`, `fullName`
 * `nodes/node_case.py`       `CaseNode.parse`                → the `@N` numbering in `step`
@@ -74,6 +74,8 @@ inductive Kw where
   | node (isMod : Bool) (v : Int)   -- `name int = v`  /  `name = v`
   | group                            -- `name`
   | prop (p : PKind)                 -- `!constant` / `!tags ["t"]`
+  | imp (nd : Option String)         -- `{?src.*}` (none) / `{?src.n}` (some n); `name` = parts of src
+  | unit (broken : Bool)             -- `$unit name = 2 m` / `$unit name = 2 zzz` (cannot be defined)
   | case (c : Bool)                  -- `[parts.]@case true` / `[parts.]@case false`
   | els                              -- `[parts.]@else`
   | fin                              -- `[parts.]@end`
@@ -91,6 +93,8 @@ structure Line where
 inductive Eff where
   | node (name : List String) (isMod : Bool) (v : Int)
   | prop (p : PKind)
+  | imp (pre src : List String) (nd : Option String)   -- import of `src.*` / `src.nd` below `pre`
+  | fail                                               -- a directive that cannot be carried out
   deriving DecidableEq, Repr, Inhabited
 
 /-- Parser state: `HierarchyList.parents` and `BranchingList`. -/
@@ -200,6 +204,22 @@ def step (s : St) (l : Line) : Except Unit (St × List Eff) :=
     -- skip test; `parse` applies the property to `env.nodes[-1]`; `continue`
     let st1 := closeGE l.indent s.state
     .ok ({ s with state := st1 }, if falseCase st1 then [] else [.prop p])
+  | .unit broken =>
+    -- close_cases (directives end cases at their indent); skip test; `UnitNode.parse` defines the
+    -- unit (raises if it cannot); not in the hierarchy; `continue`
+    let st1 := closeGE l.indent s.state
+    .ok ({ s with state := st1 }, if falseCase st1 || !broken then [] else [.fail])
+  | .imp nd =>
+    -- close_cases; skip test: an unselected import line is not parsed, it is registered in the
+    -- hierarchy and skipped.  Otherwise `ImportNode.parse` requests the nodes and puts copies with
+    -- the indent of the import line back into the queue; each passes the loop like a node line
+    -- (nothing left to close, hierarchy.register, prepare_node, define-or-modify).  The entry the
+    -- import line resp. the last imported node leaves in the hierarchy is represented by a
+    -- placeholder: only lines deeper than the import line could observe it.
+    let st1 := closeGE l.indent s.state
+    let ps := register s.parents l.indent [.nm "{import}"]
+    .ok ({ s with parents := ps, state := st1 },
+      if falseCase st1 then [] else [.imp (cleanName (fullName (popGE l.indent s.parents))) l.name nd])
   | .group =>
     -- close_cases; skip test / parse (nothing to do); hierarchy.register; `continue`
     let st1 := closeGE l.indent s.state
@@ -243,6 +263,27 @@ def parse (ls : List Line) : Except Unit (List Eff) :=
   | .ok (_, o) => .ok o
   | .error e => .error e
 
+/-- The end of the code closes all open cases (fix 445f434); hierarchy and counters stay in the
+    returned environment. -/
+def St.finish (s : St) : St := { s with state := [] }
+
+/-- `DIP(env).parse()`: the parse works on a copy of the environment's state. -/
+def parseFrom (s : St) (ls : List Line) : Except Unit (St × List Eff) :=
+  match run s ls with
+  | .ok (s', o) => .ok (s'.finish, o)
+  | .error e => .error e
+
+/-- Several codes parsed one after the other, each on the environment the previous returned. -/
+def parseChain (s : St) : List (List Line) → Except Unit (List (List Eff))
+  | [] => .ok []
+  | t :: ts =>
+    match parseFrom s t with
+    | .error e => .error e
+    | .ok (s', o) =>
+      match parseChain s' ts with
+      | .ok os => .ok (o :: os)
+      | .error e => .error e
+
 /-- One entry of `env.nodes`: name, value, `constant`, `tags`. -/
 structure NodeRec where
   name : List String
@@ -256,23 +297,53 @@ def applyProp (p : PKind) (r : NodeRec) : NodeRec :=
   | .constant => { r with constant := true }
   | .tags t => { r with tags := r.tags ++ [t] }
 
-/-- What `DIP.parse` does with the effective lines (ints only).  A node line whose name
-    exists replaces the value in place unless the node is constant (raises); otherwise a
-    modification raises and a definition is appended.  A property line is applied to the
-    last entry (`env.nodes[-1]`, raises on an empty list).  Used identically on the model's and
-    the specification's effect list; result in `env.nodes` order. -/
+/-- Define-or-modify: a node line whose name exists replaces the value in place unless the
+    node is constant (raises); otherwise a modification raises and a definition is appended
+    (`constant`/`tags` given for imported copies). -/
+def defineRec (acc : List NodeRec) (name : List String) (m : Bool) (v : Int) (cst : Bool)
+    (tags : List String) : Except Unit (List NodeRec) :=
+  if acc.any (fun r => r.name == name) then
+    if acc.any (fun r => r.name == name && r.constant) then .error ()
+    else .ok (acc.map (fun r => if r.name == name then { r with v := v } else r))
+  else if m then .error ()
+  else .ok (acc ++ [⟨name, v, cst, tags⟩])
+
+/-- The nodes an import line requests (`env.request`), with the part of the name that is kept. -/
+def importMatches (acc : List NodeRec) (src : List String) (nd : Option String) : List (List String × NodeRec) :=
+  match nd with
+  | none => (acc.filter (fun r => src.isPrefixOf r.name && src.length < r.name.length)).map
+      (fun r => (r.name.drop src.length, r))
+  | some n => (acc.filter (fun r => r.name == src ++ [n])).map (fun r => ([n], r))
+
+def defineAll (acc : List NodeRec) (pre : List String) : List (List String × NodeRec) → Except Unit (List NodeRec)
+  | [] => .ok acc
+  | (rest, r) :: ms =>
+    match defineRec acc (pre ++ rest) false r.v r.constant r.tags with
+    | .ok acc' => defineAll acc' pre ms
+    | .error e => .error e
+
+/-- What `DIP.parse` does with the effective lines (ints only).  Node lines: define-or-modify.
+    A property line is applied to the last entry (`env.nodes[-1]`, raises on an empty list).  An
+    import defines copies of the requested nodes (raises if there are none).  Used identically on
+    the model's and the specification's effect list; result in `env.nodes` order. -/
 def applyEffs (acc : List NodeRec) : List Eff → Except Unit (List NodeRec)
   | [] => .ok acc
   | .node name m v :: es =>
-    if acc.any (fun r => r.name == name) then
-      if acc.any (fun r => r.name == name && r.constant) then .error ()
-      else applyEffs (acc.map (fun r => if r.name == name then { r with v := v } else r)) es
-    else if m then .error ()
-    else applyEffs (acc ++ [⟨name, v, false, []⟩]) es
+    match defineRec acc name m v false [] with
+    | .ok acc' => applyEffs acc' es
+    | .error e => .error e
   | .prop p :: es =>
     match acc.reverse with
     | [] => .error ()
     | last :: rest => applyEffs ((applyProp p last :: rest).reverse) es
+  | .imp pre src nd :: es =>
+    match importMatches acc src nd with
+    | [] => .error ()
+    | ms =>
+      match defineAll acc pre ms with
+      | .ok acc' => applyEffs acc' es
+      | .error e => .error e
+  | .fail :: _ => .error ()
 
 /-! ## Specification: programs as trees -/
 
@@ -280,11 +351,14 @@ mutual
   /-- `extra` = how much deeper than the minimum (keyword indent + 1) the children are
       written: the indentation oracle.  A node carries the property lines written below it
       (each with its own extra indent); `prop` is a property line written at the level of the
-      sequence (e.g. directly after a block).  `pfx` = the dotted parent written in front of
+      sequence (e.g. directly after a block); `imp` an import line `{?src.*}` / `{?src.n}`;
+      `unit` a `$unit` directive (`broken`: one that cannot be carried out).  `pfx` = the dotted parent written in front of
       every clause keyword of the block (`engine.@case …`, compact form; `[]` = plain form). -/
   inductive Item where
     | node (name : String) (isMod : Bool) (v : Int) (props : List (Nat × PKind))
     | prop (p : PKind)
+    | imp (src : List String) (nd : Option String)
+    | unit (name : String) (broken : Bool)
     | group (name : String) (extra : Nat) (body : Items)
     | block (pfx : List String) (c : Bool) (extra : Nat) (body : Items) (more : Chain)
   inductive Items where
@@ -325,6 +399,8 @@ mutual
   def Item.render (k : Nat) (forceEnd : Bool) : Item → List Line
     | .node n m v props => ⟨k, [n], .node m v⟩ :: propLines k props
     | .prop p => [⟨k, [], .prop p⟩]
+    | .imp src nd => [⟨k, src, .imp nd⟩]
+    | .unit n b => [⟨k, [n], .unit b⟩]
     | .group n e body => ⟨k, [n], .group⟩ :: body.render (k + 1 + e)
     | .block pfx c e body more =>
       ⟨k, pfx, .case c⟩ :: (body.render (k + 1 + e) ++ more.render k pfx forceEnd)
@@ -344,6 +420,8 @@ mutual
   def Item.sem (pre : List String) : Item → List Eff
     | .node n m v props => .node (pre ++ [n]) m v :: props.map (fun ep => Eff.prop ep.2)
     | .prop p => [.prop p]
+    | .imp src nd => [.imp pre src nd]
+    | .unit _ b => if b then [.fail] else []
     | .group n _ body => body.sem (pre ++ [n])
     | .block pfx c _ body more => if c then body.sem (pre ++ pfx) else more.sem (pre ++ pfx)
   def Items.sem (pre : List String) : Items → List Eff
@@ -363,6 +441,8 @@ mutual
   def Item.occ (pre : List String) (sel : List Bool) : Item → List (List Bool × Eff)
     | .node n m v props => (sel, .node (pre ++ [n]) m v) :: props.map (fun ep => (sel, Eff.prop ep.2))
     | .prop p => [(sel, .prop p)]
+    | .imp src nd => [(sel, .imp pre src nd)]
+    | .unit _ b => if b then [(sel, .fail)] else []
     | .group n _ body => body.occ (pre ++ [n]) sel
     | .block pfx c _ body more => body.occ (pre ++ pfx) (c :: sel) ++ more.occ (pre ++ pfx) sel c
   def Items.occ (pre : List String) (sel : List Bool) : Items → List (List Bool × Eff)
